@@ -4,6 +4,17 @@ from __future__ import annotations
 import p_session as PS
 
 LEAN_TARGETS = ["Verif.Props.C12"]
+SECOND_TIE = {
+    "what": "the bookkeeping of _session.py (data_to_send, unbind, _send and _validate_outgoing_message of base / client / server, both "
+            "_process_incoming_message, the processing loop and closing logic of receive with the attached notification, bind / bind_simple / bind_sasl / "
+            "extended_request / search_request, bind_response / extended_response / search_result_entry / reference / done) translated method by method "
+            "from the Python AST into Lean (harness/py2lean_session.py -> Generated/SessionGen.lean; encoding = the model's encMsg, unpacking = the "
+            "model's parse loop, both abstract here) and proved equal to the hand-written model of Model/Session.lean (Props/TiesSession.lean: component "
+            "ties to sendBase / clientSend / serverSend / clientProcess / serverProcess / processLoop / recv, and one step tie per Call constructor)",
+    "translator": "py2lean_session.py",
+    "targets": ["Verif.Props.TiesSession"],
+    "validate": "p_sessiongen.py",
+}
 LEVEL = "proof"
 ASSUMPTIONS = [
     "sets of message ids are modelled as duplicate-free lists; internal buffers are observed read-only by the harness",
